@@ -172,6 +172,6 @@ def conds(tier):
     M = "harness.c07_io"
     return [
         xh.Cond(M, "c07_corruption", t(420, 2400), kind="shape-bounded", path_timeout=60, examples=["kind=3, k=17, s=0", "kind=0, k=5, s=0", "kind=4, k=30, s=2"],
-                bounds="5 corruption kinds x %s token positions%s, 6 entry points each" % (("all %d" % NB) if not q else ("every third of %d" % NB), " x %d stray tokens" % NS if not q else " (stray token derived)")),
+                bounds="5 corruption kinds x %s token positions%s, 6 entry points each" % (("all %d" % NB) if not q else ("every third of %d" % NB), " x 5 stray tokens per position" if not q else " (stray token derived)")),
         xh.Cond(M, "c07_validation", t(120, 300), kind="shape-bounded", examples=["i=0", "i=4"], bounds="%d rule violations x 6 entry points" % NI),
     ]
